@@ -1,2 +1,48 @@
--- stub: replaced by the model driver of this property
-def main : IO Unit := pure ()
+import SdcModel.Basic.Io
+import SdcModel.Query
+open Sdc Sdc.Query
+
+/-! ops (handles / refs / languages are opaque tokens, `-` = None):
+  `reset` | `d h parent|- 0|1` | `s dh` | `c h dh` | `mdstate 0|1 h…` | `ctx h…`
+  `t ref|- lang|- ver|- width|- nol` | `texts refs… | ver|- | langs… | widths… | nols…` | `langs` | `tw name|-` -/
+
+structure DState where
+  m : Mdib := ⟨[], [], []⟩
+  texts : List Text := []
+
+def opt (s : String) : Option String := if s = "-" then none else some s
+def optNat (s : String) : Option (Option Nat) := if s = "-" then some none else s.toNat?.map some
+
+def showSt (s : St) : String := if s.ctx then s!"c:{s.handle}:{s.dh}" else s!"s:{s.dh}"
+def showSts (l : List St) : String := " ".intercalate (l.map showSt)
+
+/-- split a word list at the `|` separators -/
+def splitBars (ws : List String) : List (List String) := ws.splitOn "|"
+
+def stepLine (st : DState) (line : String) : DState × String :=
+  match Io.words line with
+  | ["reset"] => ({}, "ok")
+  | ["d", h, p, mds] =>
+    ({ st with m := { st.m with descrs := st.m.descrs ++ [⟨h, opt p, mds = "1"⟩] } }, "ok")
+  | ["s", dh] => ({ st with m := { st.m with states := st.m.states ++ [⟨false, "", dh⟩] } }, "ok")
+  | ["c", h, dh] => ({ st with m := { st.m with ctxs := st.m.ctxs ++ [⟨true, h, dh⟩] } }, "ok")
+  | "mdstate" :: f :: hs => (st, "ok " ++ showSts (getMdState st.m (f = "1") hs))
+  | "ctx" :: hs => (st, "ok " ++ showSts (getContextStates st.m hs))
+  | ["t", r, l, v, w, n] =>
+    match optNat v, optNat w, n.toNat? with
+    | some v, some w, some n =>
+      let id := st.texts.length
+      ({ st with texts := st.texts ++ [⟨id, opt r, opt l, v, w, n⟩] }, s!"ok {id}")
+    | _, _, _ => (st, "bad-op")
+  | "texts" :: rest =>
+    match splitBars rest with
+    | [refs, [v], langs, widths, nols] =>
+      match optNat v, Io.parseNats widths, Io.parseNats nols with
+      | some v, some ws, some ns => (st, "ok " ++ Io.natList ((filterTexts st.texts refs v langs ws ns).map (·.id)))
+      | _, _, _ => (st, "bad-op")
+    | _ => (st, "bad-op")
+  | ["langs"] => (st, "ok " ++ " ".intercalate (supportedLanguages st.texts))
+  | ["tw", n] => (st, match tw2i (opt n) with | some i => s!"ok {i}" | none => "err KeyError")
+  | _ => (st, "bad-op")
+
+def main : IO Unit := Io.lineLoop stepLine {}
